@@ -32,12 +32,13 @@ TRUSTED = [
     "C01: the Windows branches of send_signal/suspend/…, which CPUs of the full mask handed over by `cpu_affinity([])` the kernel keeps (C18's subject) and `(pid, None)` identities of Popen over an already reaped child are outside the model",
 ]
 ASSUMPTIONS = [
-    "the published boot time (btime line of /proc/stat) is never 0 (C01/C02 theorems carry `b ≠ 0` explicitly)",
+    # (no assumption on the boot time since /repo 29257b1: `create_time()` tests `BOOT_TIME is not None`, obligation
+    #  cfg_none_test; C01/C02 theorems hold from any published boot time, 0 included, with any clock steps)
     "a PID is not recycled within one clock tick (psutil's documented assumption): every spawn advances the model clock",
 ]
 MANIFEST = {
-    "level_text": "Machine-checked Lean 4 proof over a model of psutil's process-identity machinery (Process._init/_get_ident/create_time/is_running/_raise_if_pid_reused/_send_signal/setters + _pslinux boot_time/BOOT_TIME) and a simulated kernel: by induction over ALL histories of spawn/exit/reap/PID-reuse/tick/clock-step events and interleaved psutil calls, every effect in the log was delivered to the incarnation the asking object was built for, under exactly the object's PID, signals never to PID<=0 (C01_no_wrong_owner, C01_never_group), a call adds at most one effect carrying exactly the requested signal/values (C01_exact_args, signalMap_correct), a call through an object whose incarnation lost its PID raises NoSuchProcess(pid) and leaves the log unchanged — the kernel is not even asked — (C01_recycled_raises_NSP), and a live incarnation is not refused (C01_live_signal_delivered). The kernel's permission outcome is an input of every effect (histories contain events that make the kernel refuse a PID with EPERM or EACCES and allow it again): a refused os.kill / setpriority / ioprio_set / sched_setaffinity / prlimit is logged as an attempt with its errno, so C01_no_wrong_owner and C01_exact_args also cover what psutil ASKED the kernel for; on a live incarnation exactly one attempt is made and the caller gets AccessDenied(pid) instead of a normal return (C01_live_signal_delivered / C01_live_setter_applied, parametrised by the kernel's answer); in any state a call returns normally iff one OS call was made and carried out, a refused one is AccessDenied(pid), nothing is retried (C01_outcome_truthful); a refusal sets no sticky flag (C02's theorems range over these histories). Outside the property's quantifier (characterisation, not findings): when /proc/pid/stat cannot be opened, Process._init keeps `_ident = (pid, None)` — modelled (mkObj, Kernel.hidden) and compared with the real code; for histories with such phases every logged OS call still carries the asking object's PID, never a PID <= 0, and reaches the right incarnation whenever the object's start time is known (C01_known_start_no_wrong_owner, all histories), while an object with unknown start passes the guard whenever the PID's current holder is unreadable too (C01_unknown_start_counterexample, witness replayed on the real code) — and ONLY then: over all histories with unreadable phases, for every object (start known or not) and whatever was called in between (create_time(), is_running(), process_iter() …), as soon as /proc/pid/stat of the PID opens at the moment of the call (PID free, or its new holder readable) a signal/setter through an object whose incarnation is gone raises NoSuchProcess(pid) and hands nothing to the OS, and every effect issued while the stat file opens reaches the object's own incarnation (C01_recycled_raises_NSP_readable, C01_effect_readable_right_owner); the model's premise that `_ident` is written at construction only is the translator obligation cfg_ident_writers, and the correspondence judges histories with unreadable phases by these clauses (not by the model alone). The object list of a history holds the objects built by Process(pid) and those built and yielded by process_iter() (cached handles of recycled PIDs included), with oneshot() entry/exit as explicit no-op calls. The proofs hold for the configuration extracted by the translator (cfg_good: guard before every effect, `_gone` test in _raise_if_pid_reused, BOOT_TIME written once); for the two defective configurations the counterexamples are proved (C01_gone_counterexample, C01_bootrewrite_counterexample). Tie: ast-extracted facts + differential run of real psutil.Process objects over a fake procfs with recording OS entry points.",
-    "level_note": "Trusted: Lean kernel + {propext, Classical.choice, Quot.sound}; the translator; the correspondence harness; the simulated kernel/fake procfs; atomic calls (the inherent check-then-kill window is outside the model); exact arithmetic for create times; hypotheses btime != 0 and (main theorems) /proc/pid/stat always readable; permission refusals attached to the PID, ESRCH decided by the process table alone.",
+    "level_text": "Machine-checked Lean 4 proof over a model of psutil's process-identity machinery (Process._init/_get_ident/create_time/is_running/_raise_if_pid_reused/_send_signal/setters + _pslinux boot_time/BOOT_TIME) and a simulated kernel: by induction over ALL histories of spawn/exit/reap/PID-reuse/tick/clock-step events and interleaved psutil calls, every effect in the log was delivered to the incarnation the asking object was built for, under exactly the object's PID, signals never to PID<=0 (C01_no_wrong_owner, C01_never_group), a call adds at most one effect carrying exactly the requested signal/values (C01_exact_args, signalMap_correct), a call through an object whose incarnation lost its PID raises NoSuchProcess(pid) and leaves the log unchanged — the kernel is not even asked — (C01_recycled_raises_NSP), and a live incarnation is not refused (C01_live_signal_delivered). The kernel's permission outcome is an input of every effect (histories contain events that make the kernel refuse a PID with EPERM or EACCES and allow it again): a refused os.kill / setpriority / ioprio_set / sched_setaffinity / prlimit is logged as an attempt with its errno, so C01_no_wrong_owner and C01_exact_args also cover what psutil ASKED the kernel for; on a live incarnation exactly one attempt is made and the caller gets AccessDenied(pid) instead of a normal return (C01_live_signal_delivered / C01_live_setter_applied, parametrised by the kernel's answer); in any state a call returns normally iff one OS call was made and carried out, a refused one is AccessDenied(pid), nothing is retried (C01_outcome_truthful); a refusal sets no sticky flag (C02's theorems range over these histories). Outside the property's quantifier (characterisation, not findings): when /proc/pid/stat cannot be opened, Process._init keeps `_ident = (pid, None)` — modelled (mkObj, Kernel.hidden) and compared with the real code; for histories with such phases every logged OS call still carries the asking object's PID, never a PID <= 0, and reaches the right incarnation whenever the object's start time is known (C01_known_start_no_wrong_owner, all histories), while an object with unknown start passes the guard whenever the PID's current holder is unreadable too (C01_unknown_start_counterexample, witness replayed on the real code) — and ONLY then: over all histories with unreadable phases, for every object (start known or not) and whatever was called in between (create_time(), is_running(), process_iter() …), as soon as /proc/pid/stat of the PID opens at the moment of the call (PID free, or its new holder readable) a signal/setter through an object whose incarnation is gone raises NoSuchProcess(pid) and hands nothing to the OS, and every effect issued while the stat file opens reaches the object's own incarnation (C01_recycled_raises_NSP_readable, C01_effect_readable_right_owner); the model's premise that `_ident` is written at construction only is the translator obligation cfg_ident_writers, and the correspondence judges histories with unreadable phases by these clauses (not by the model alone). The object list of a history holds the objects built by Process(pid) and those built and yielded by process_iter() (cached handles of recycled PIDs included), with oneshot() entry/exit as explicit no-op calls. The proofs hold for the configuration extracted by the translator (cfg_good: guard before every effect, `_gone` test in _raise_if_pid_reused, BOOT_TIME written once; cfg_none_test: create_time() takes the cached BOOT_TIME whenever it `is not None` — /repo 29257b1, the repair of the former finding C02-boottime-zero), with NO hypothesis on the boot time: the initial published boot time is any number, 0 included, and clock steps go anywhere (histories from btime 0 are generated and judged by the specification like all others); for the defective configurations the counterexamples are proved (C01_gone_counterexample, C01_bootrewrite_counterexample, and — what-if, the truthiness test `BOOT_TIME or boot_time()` of the source before 29257b1 — C01_btime0_counterexample: from a published btime 0, after a clock step terminate() on the handle of a LIVE process raises NoSuchProcess). Tie: ast-extracted facts + differential run of real psutil.Process objects over a fake procfs with recording OS entry points.",
+    "level_note": "Trusted: Lean kernel + {propext, Classical.choice, Quot.sound}; the translator; the correspondence harness; the simulated kernel/fake procfs; atomic calls (the inherent check-then-kill window is outside the model); exact arithmetic for create times; hypotheses: no PID recycled within one clock tick and (main theorems) /proc/pid/stat always readable — none on the boot time (any value, 0 included, any clock step); permission refusals attached to the PID, ESRCH decided by the process table alone.",
     "technique": "Lean 4 invariant proof by induction over event histories (ghost incarnation ids) + translator-fed proof obligation + differential correspondence on generated and exhaustively enumerated short histories",
     "design_ref": "DESIGN.md §5 C01",
 }
@@ -566,26 +567,22 @@ KERNEL_OPS = ("spawn", "exit", "reap", "tick", "setbtime", "perm", "hide")
 
 
 def hyp_of(hist):
-    """do the theorems' hypotheses hold for this history?  (btime != 0 — flag set by the generator — and
-    /proc/<pid>/stat always readable: no `hide on` event; permission changes are inside the hypotheses)"""
+    """do the theorems' hypotheses hold for this history?  (`HistOK true`: /proc/<pid>/stat always readable — no `hide on`
+    event, flag cleared by the generators of such families; permission changes, clock steps and a published boot time of
+    0 are inside the hypotheses)"""
     return bool(hist.get("hyp", True)) and not any(o["op"] == "hide" and o["on"] for o in hist["ops"])
-
-
-def bt_ok(hist):
-    """the published boot time is never 0 (`BtOK`; generators that leave this hypothesis set btime 0)"""
-    return hist["btime"] != 0 and not any(o["op"] == "setbtime" and o["b"] == 0 for o in hist["ops"])
 
 
 def judge_as(hist, prop):
     """by which statement a history is judged: the property's full oracle inside the hypotheses (`HistOK`); for C01 in
-    histories with unreadable stat files (`HistOKb`: `hide` events anywhere, boot time never 0) the clauses that are
+    histories with unreadable stat files (`HistOKb true`: `hide` events anywhere, any boot time) the clauses that are
     theorems there — "C01h": the any-state clauses (C01_exact_args, C01_outcome_truthful, negative PIDs, no effect by a
     non-effect call, never a process group) and, whenever /proc/<pid>/stat of the object's PID OPENS at the moment of the
     call, the recycling clause itself (C01_recycled_raises_NSP_readable / C01_effect_readable_right_owner); otherwise the
     model only ("none")"""
     if hyp_of(hist):
         return prop
-    if prop == "C01" and bt_ok(hist) and any(o["op"] == "hide" for o in hist["ops"]):
+    if prop == "C01" and any(o["op"] == "hide" for o in hist["ops"]):
         return "C01h"
     return "none"
 
@@ -1036,6 +1033,11 @@ def spec_violation(op, im, effs, sp, prop):
                     return "the OS carried the call out but the caller got %s" % im.get("exc")
             if not effs and im.get("kind") != "exc":
                 return "the call returned normally although nothing was handed to the OS"
+            if prop == "C01" and k == "signal" and sp["listed"] and sp["pid"] > 0 and not effs:
+                # C01_live_signal_delivered: the guard refuses nothing it should not (full hypotheses only; this is the
+                # clause the former finding C02-boottime-zero broke: a cached BOOT_TIME of 0.0 read as "unset")
+                return ("no os.kill although the object's own incarnation holds the PID: %s(%s) for a live process"
+                        % (im.get("exc"), im.get("pid")))
             if not sp["listed"] and speaks:
                 if effs:
                     return "effect although the object's incarnation lost the PID"
@@ -1716,12 +1718,14 @@ def gen_history(rng, family, clk):
             P.ev(op="is_running", i=i)
         return P.hist(family, hyp=False)
     elif family == "btime0":
-        # outside the hypothesis btime != 0: model correspondence only
+        # a machine that boots at the epoch (published btime 0) and is stepped later.  Inside the theorems since
+        # /repo 29257b1 (create_time() tests `BOOT_TIME is not None`; obligation cfg_none_test): judged by the
+        # SPECIFICATION like every other family
         P = Plan(rng, 0, clk)
         P.ev(op="spawn", pid=p).ev(op="new", pid=p).ev(op="setbtime", b=rng.choice([0, 5])).ev(op="boot_time")
         P.ev(op="new", pid=p).ev(op="is_running", i=0).ev(op="eq", i=0, j=1)
         P.effect_call(0)
-        return P.hist(family, hyp=False)
+        return P.hist(family, hyp=True)
     else:  # mixed
         for _ in range(rng.randrange(4, 26)):
             r = rng.random()
